@@ -63,22 +63,20 @@ package swagen30
 // ---- struct components (C07): the component is registered under the struct's name; every field that is not
 // embedded is a property keyed by its JSON name; `required` lists exactly the JSON names of the fields whose
 // validate tag asks for it ----
-//@ spec jsonName(f definitions.FieldMetadata) string = swagtool.GetJsonNameFromTag(f.Tag, f.Name)
-//@ spec fieldRequired(f definitions.FieldMetadata) bool = swagtool.IsFieldRequired(swagtool.GetTagValue(f.Tag, "validate", ""))
 //@ spec skippedField(f definitions.FieldMetadata) bool = f.IsEmbedded && f.Type == "error"
-//@ spec hasEmbedded(m definitions.StructMetadata) bool = exists(k, 0, len(m.Fields), m.Fields[k].IsEmbedded && m.Fields[k].Type != "error")
 // the schema that carries the struct's own fields: the component itself, or the first member of its allOf
-//@ spec fieldsSchema(c *openapi3.SchemaRef, m definitions.StructMetadata) *openapi3.Schema = ite(hasEmbedded(m), c.Value.AllOf[0].Value, c.Value)
+//@ spec fieldsSchema(c *openapi3.SchemaRef, m definitions.StructMetadata) *openapi3.Schema = ite(swagtool.hasEmbedded(m), c.Value.AllOf[0].Value, c.Value)
 //@ func generateStructSpec props C07,C14
+//@ opaque swagtool.GetTagValue, swagtool.IsFieldRequired, swagtool.GetJsonNameFromTag
 //@ requires openapi != nil && openapi.Components != nil && openapi.Components.Schemas != nil
 //@ modifies elems(openapi.Components.Schemas), schemaRefMap, any(elems(schemaRefMap)), any(openapi3.Schema.Description), any(openapi3.Schema.Deprecated), any(openapi3.Schema.Format), any(openapi3.Schema.Min), any(openapi3.Schema.Max), any(openapi3.Schema.ExclusiveMin), any(openapi3.Schema.ExclusiveMax), any(openapi3.Schema.MinLength), any(openapi3.Schema.MaxLength), any(openapi3.Schema.Pattern), any(openapi3.Schema.MinItems), any(openapi3.Schema.MaxItems), any(openapi3.Schema.UniqueItems), any(openapi3.Schema.Enum), any(elems([]any))
 //@ ensures reg: indom(openapi.Components.Schemas, model.Name) && openapi.Components.Schemas[model.Name] != nil && openapi.Components.Schemas[model.Name].Value != nil
 //@ ensures others: forall(n, string, implies(n != model.Name, indom(openapi.Components.Schemas, n) == old(indom(openapi.Components.Schemas, n)) && openapi.Components.Schemas[n] == old(openapi.Components.Schemas[n])))
-//@ ensures shape: implies(hasEmbedded(model), len(openapi.Components.Schemas[model.Name].Value.AllOf) >= 1 && openapi.Components.Schemas[model.Name].Value.AllOf[0] != nil && openapi.Components.Schemas[model.Name].Value.AllOf[0].Value != nil)
+//@ ensures shape: implies(swagtool.hasEmbedded(model), len(openapi.Components.Schemas[model.Name].Value.AllOf) >= 1 && openapi.Components.Schemas[model.Name].Value.AllOf[0] != nil && openapi.Components.Schemas[model.Name].Value.AllOf[0].Value != nil)
 //@ ensures title: fieldsSchema(openapi.Components.Schemas[model.Name], model).Title == model.Name && fieldsSchema(openapi.Components.Schemas[model.Name], model).Description == model.Description
-//@ ensures props: forall(k, 0, len(model.Fields), implies(!model.Fields[k].IsEmbedded, indom(fieldsSchema(openapi.Components.Schemas[model.Name], model).Properties, jsonName(model.Fields[k]))))
-//@ ensures reqComplete: forall(k, 0, len(model.Fields), implies(!model.Fields[k].IsEmbedded && fieldRequired(model.Fields[k]), exists(r, 0, len(fieldsSchema(openapi.Components.Schemas[model.Name], model).Required), fieldsSchema(openapi.Components.Schemas[model.Name], model).Required[r] == jsonName(model.Fields[k]))))
-//@ ensures reqSound: forall(r, 0, len(fieldsSchema(openapi.Components.Schemas[model.Name], model).Required), exists(k, 0, len(model.Fields), !model.Fields[k].IsEmbedded && fieldRequired(model.Fields[k]) && fieldsSchema(openapi.Components.Schemas[model.Name], model).Required[r] == jsonName(model.Fields[k])))
+//@ ensures props: forall(k, 0, len(model.Fields), implies(!model.Fields[k].IsEmbedded, indom(fieldsSchema(openapi.Components.Schemas[model.Name], model).Properties, swagtool.jsonName(model.Fields[k]))))
+//@ ensures reqComplete: forall(k, 0, len(model.Fields), implies(!model.Fields[k].IsEmbedded && swagtool.fieldRequired(model.Fields[k]), exists(r, 0, len(fieldsSchema(openapi.Components.Schemas[model.Name], model).Required), fieldsSchema(openapi.Components.Schemas[model.Name], model).Required[r] == swagtool.jsonName(model.Fields[k]))))
+//@ ensures reqSound: forall(r, 0, len(fieldsSchema(openapi.Components.Schemas[model.Name], model).Required), exists(k, 0, len(model.Fields), !model.Fields[k].IsEmbedded && swagtool.fieldRequired(model.Fields[k]) && fieldsSchema(openapi.Components.Schemas[model.Name], model).Required[r] == swagtool.jsonName(model.Fields[k])))
 //@ loop 0 invariant 0 <= _n && _n <= len(model.Fields) && fresh(relevantFields) && schema != nil && fresh(schema) && schema.Properties != nil && fresh(schema.Properties) && schema.Title == model.Name && schema.Description == model.Description && len(schema.Required) == 0
 //@ loop 0 invariant hasEmbeddedField == exists(k, 0, _n, model.Fields[k].IsEmbedded && model.Fields[k].Type != "error")
 //@ loop 0 invariant forall(j, 0, len(relevantFields), exists(k, 0, _n, relevantFields[j] == model.Fields[k]))
@@ -88,9 +86,9 @@ package swagen30
 //@ loop 1 invariant implies(!hasEmbeddedField, modelSchema == schema) && implies(hasEmbeddedField, modelSchema != schema && len(modelSchema.AllOf) >= 1 && fresh(modelSchema.AllOf) && modelSchema.AllOf[0] != nil && fresh(modelSchema.AllOf[0]) && modelSchema.AllOf[0].Value == schema)
 //@ loop 1 invariant forall(j, 0, len(relevantFields), implies(relevantFields[j].IsEmbedded, hasEmbeddedField))
 //@ loop 1 invariant forall(n, string, indom(openapi.Components.Schemas, n) == old(indom(openapi.Components.Schemas, n)) && openapi.Components.Schemas[n] == old(openapi.Components.Schemas[n]))
-//@ loop 1 invariant forall(j, 0, _n, implies(!relevantFields[j].IsEmbedded, indom(schema.Properties, jsonName(relevantFields[j]))))
-//@ loop 1 invariant forall(j, 0, _n, implies(!relevantFields[j].IsEmbedded && fieldRequired(relevantFields[j]), exists(r, 0, len(requiredFields), requiredFields[r] == jsonName(relevantFields[j]))))
-//@ loop 1 invariant forall(r, 0, len(requiredFields), exists(j, 0, _n, !relevantFields[j].IsEmbedded && fieldRequired(relevantFields[j]) && requiredFields[r] == jsonName(relevantFields[j])))
+//@ loop 1 invariant forall(j, 0, _n, implies(!relevantFields[j].IsEmbedded, indom(schema.Properties, swagtool.jsonName(relevantFields[j]))))
+//@ loop 1 invariant forall(j, 0, _n, implies(!relevantFields[j].IsEmbedded && swagtool.fieldRequired(relevantFields[j]), exists(r, 0, len(requiredFields), requiredFields[r] == swagtool.jsonName(relevantFields[j]))))
+//@ loop 1 invariant forall(r, 0, len(requiredFields), exists(j, 0, _n, !relevantFields[j].IsEmbedded && swagtool.fieldRequired(relevantFields[j]) && requiredFields[r] == swagtool.jsonName(relevantFields[j])))
 
 //@ func GenerateSpec props C08,C20,C01,C14
 //@ modifies any(openapi3.PathItem), any(openapi3.Paths), any(openapi3.Responses), any(definitions.TypeMetadata.Name), any(elems([]*openapi3.ParameterRef)), any(openapi3.RequestBody), any(openapi3.RequestBodyRef), any(elems(openapi3.Content)), any(elems(openapi3.Schemas)), any(elems([]string)), any(openapi3.Schema.Description), any(openapi3.Schema.Required), any(openapi3.Schema.Format), any(openapi3.Schema.Min), any(openapi3.Schema.Max), any(openapi3.Schema.ExclusiveMin), any(openapi3.Schema.ExclusiveMax), any(openapi3.Schema.MinLength), any(openapi3.Schema.MaxLength), any(openapi3.Schema.Pattern), any(openapi3.Schema.MinItems), any(openapi3.Schema.MaxItems), any(openapi3.Schema.UniqueItems), any(openapi3.Schema.Enum), any(SchemaRefMap), any(elems(schemaRefMap)), any(elems([]any)), any(openapi3.Schema), any(openapi3.SchemaRef), any(elems(openapi3.SchemaRefs)), any(elems(map[string]interface{})), any(elems([]interface{})), schemaRefMap
